@@ -1,0 +1,23 @@
+//go:build !verif
+
+// Package verifhook contains instrumentation seams used only by the external
+// deterministic-simulation harness. Without the build tag "verif" every
+// function is an empty, inlinable no-op.
+package verifhook
+
+// Enabled reports whether the package was built with the verif tag.
+const Enabled = false
+
+func Yield(string, uint64) {}
+
+func GateAcquire(any) {}
+
+func GateRelease(any) {}
+
+func RandRead([]byte) bool { return false }
+
+func PoolRelease(any) {}
+
+func PoolPut(any) {}
+
+func PoolAcquire(any, bool) {}
